@@ -39,6 +39,8 @@ pub enum Shape {
     O,
     /// V0 + (number of gates)  (committed variable 0 plus a constant), for the X size family
     V,
+    /// no terms at all (the empty linear combination)
+    N,
 }
 
 #[derive(Clone, Copy, Debug, PartialEq, Eq, Hash, PartialOrd, Ord)]
@@ -65,7 +67,7 @@ pub enum Op {
 
 pub const X1: Op = Op::X(Shape::A, Shape::B);
 pub const X2: Op = Op::X(Shape::C, Shape::A);
-pub const P1_LETTERS: [Op; 11] = [
+pub const P1_LETTERS: [Op; 12] = [
     Op::C,
     Op::A,
     Op::M,
@@ -76,9 +78,10 @@ pub const P1_LETTERS: [Op; 11] = [
     Op::K(Shape::C),
     Op::K(Shape::D),
     Op::K(Shape::E),
+    Op::K(Shape::N),
     Op::T,
 ];
-pub const P2_LETTERS: [Op; 11] = [
+pub const P2_LETTERS: [Op; 12] = [
     Op::Z,
     Op::A,
     Op::M,
@@ -89,6 +92,7 @@ pub const P2_LETTERS: [Op; 11] = [
     Op::K(Shape::C),
     Op::K(Shape::D),
     Op::K(Shape::E),
+    Op::K(Shape::N),
     Op::T,
 ];
 
@@ -105,6 +109,7 @@ impl Op {
                 Shape::R => "r",
                 Shape::O => "o",
                 Shape::V => "v",
+                Shape::N => "n",
             }
         }
         match self {
@@ -131,6 +136,7 @@ impl Op {
                 'r' => Shape::R,
                 'o' => Shape::O,
                 'v' => Shape::V,
+                'n' => Shape::N,
                 _ => return None,
             })
         }
@@ -306,6 +312,8 @@ pub struct RefCs<F: PrimeField> {
     pub cons: Vec<Terms<F>>,
     /// for the k-th explicit K op: index into `cons`
     pub k_index: Vec<usize>,
+    /// for the k-th explicit K op: number of terms of its shape (before the constant is appended)
+    pub k_terms: Vec<usize>,
     pub pending: Option<usize>,
     /// gate count at the end of phase 1 (set at the phase switch)
     pub n1: Option<usize>,
@@ -434,6 +442,8 @@ pub enum Dev<F: PrimeField> {
     KCoef { k: usize, term: usize, delta: F },
     /// prover only (hook H1): gate assignment overwritten at the end of the gate's phase
     Gate { gate: usize, field: u8, delta: F },
+    /// prover only (hook H1): several wires of one gate shifted at once; `recompute_o` sets o = l*r afterwards
+    GateVec { gate: usize, d: [F; 3], recompute_o: bool },
     /// verifier only: the t-th T op appends different data
     TChange { t: usize },
     /// verifier only: the t-th T op is skipped
@@ -606,6 +616,7 @@ impl<F: PrimeField> Ctx<F> {
                 Some(i) => vec![(Variable::MultiplierOutput(i), F::one())],
                 None => vec![(one, F::zero())],
             },
+            Shape::N => vec![],
             Shape::V => {
                 let g = F::from(self.refcs.gates() as u64);
                 match self.committed.first() {
@@ -752,13 +763,19 @@ pub fn exec_op<F: PrimeField>(op: Op, ctx: &mut Ctx<F>, side: &mut dyn Side<F>) 
                 Dev::KConst { k, delta, both } if *k == ctx.kcount && (*both || is_v) => {
                     c += delta;
                 }
-                Dev::KCoef { k, term, delta } if *k == ctx.kcount && is_v => {
+                Dev::KCoef { k, term, delta } if *k == ctx.kcount && is_v && !t.is_empty() => {
                     let j = *term % t.len();
                     t[j].1 += delta;
                 }
                 _ => {}
             }
-            t.push((Variable::One(), -c));
+            // gadget code writes `constrain(lc)` without a constant when there is none: the empty
+            // combination and the bare wire constraints are passed exactly like that
+            ctx.refcs.k_terms.push(t.len());
+            let bare = matches!(s, Shape::N | Shape::R | Shape::O) && c.is_zero();
+            if !bare {
+                t.push((Variable::One(), -c));
+            }
             ctx.refcs.k_index.push(ctx.refcs.cons.len());
             ctx.refcs.cons.push(t.clone());
             ctx.kcount += 1;
@@ -822,6 +839,21 @@ fn end_of_section<F: PrimeField>(ctx: &mut Ctx<F>, side: &mut dyn Side<F>, last:
         }
     }
     if ctx.role == Role::Prover {
+        if let Dev::GateVec { gate, d, recompute_o } = ctx.dev.clone() {
+            let n = ctx.refcs.gates();
+            let n1 = ctx.refcs.n1.unwrap_or(n);
+            let in_this = if phase1 { gate < n } else { last && gate >= n1 && gate < n };
+            if in_this {
+                let a = &mut ctx.refcs.actual;
+                a.l[gate] += d[0];
+                a.r[gate] += d[1];
+                a.o[gate] += d[2];
+                if recompute_o {
+                    a.o[gate] = a.l[gate] * a.r[gate];
+                }
+                side.override_gate(gate, a.l[gate], a.r[gate], a.o[gate]);
+            }
+        }
         if let Dev::Gate { gate, field, delta } = ctx.dev.clone() {
             let n = ctx.refcs.gates();
             let n1 = ctx.refcs.n1.unwrap_or(n);
